@@ -1,8 +1,36 @@
-/- Driver handler of C10: protocol line (already split into tokens, without the leading "c10") -> answer. -/
+/- Driver handler of C10: protocol line tokens -> one answer line.
+     c10 op <PyOpName> <left> <right>     fixup(left, op, right) with the concrete Python kernels; a leading `~` marks a
+                                          float `^` result that is only approximately the C library's
+     c10 num <0|1> <v>                    coerce_to_number(v, convert_all)
+     c10 str <v>                          coerce_to_string(v)
+-/
 import Pycel.Model.Proto
+import Pycel.Model.Ops
 namespace Pycel.Drv.C10
+open Pycel Pycel.Ops
+
+def showOutcome : Outcome → String
+  | .val v => v.enc
+  | .nonfinite => "!inf"
 
 def handle : List String → String
+  | "c10" :: "op" :: o :: l :: r :: [] =>
+    match Op.ofName? o, Val.dec? l, Val.dec? r with
+    | some op, some l, some r =>
+      let out := fixupPy l op r
+      let approx := match arithOperand l, arithOperand r, out with
+        | .num x, .num y, .val (.num _) => approxResult op x y
+        | _, _, _ => false
+      (if approx then "~" else "") ++ showOutcome out
+    | _, _, _ => "!bad-arg"
+  | "c10" :: "num" :: ca :: v :: [] =>
+    match Val.dec? v with
+    | some v => (coerceToNumber (ca == "1") v).enc
+    | none => "!bad-arg"
+  | "c10" :: "str" :: v :: [] =>
+    match Val.dec? v with
+    | some v => (coerceToString v).enc
+    | none => "!bad-arg"
   | _ => "!bad-op"
 
 end Pycel.Drv.C10
